@@ -38,6 +38,8 @@ class _FpMod:
         self.PROP = mod.PROP
         self.gen_run = mod.gen_run
         self.execute = mod.execute
+        if hasattr(mod, "gen_case"):
+            self.gen_case = mod.gen_case
 
     def nontrivial_key(self, spec, res):
         return f"{spec['seed']}:{fingerprint(res)}"
